@@ -583,3 +583,109 @@ class GetMetadata(_RegBase):
         user = [e for e in st.events if e[0] == "get_exposed_members"]
         return [("any other failure comes from inspecting the live object's members (user code)", z3.Or(z3.Not(live), z3.BoolVal(bool(user)))),
                 ("the registry is only read", same_entry(old, st, self.d, KSTAR))]
+
+
+# --- Daemon.proxyFor (body): what the auto-proxy hook and applications get ----------------------------------------------------------------------------------------
+
+@R.spec("Pyro5.client.Proxy", doc="Proxy(uri): a new, unconnected proxy object for that uri (event); PyroError for a malformed uri")
+def proxy_ctor(E, st, args, kw):
+    p = st.new_obj("Pyro5.client.Proxy", for_uri=args[0])
+    st.event("Proxy", args[0], p)
+    return [Res(st, p), E.raise_(st.fork(), "Pyro5.errors.PyroError")]
+
+
+@R.model("Pyro5.client.Proxy")
+class ProxyObj:
+    """a freshly made proxy as proxyFor uses it: _pyroGetMetadata(known_metadata=m) only stores the metadata it is given (no remote call) - event"""
+
+    def getattr(self, E, st, obj, name):
+        return None
+
+    def m_get_metadata(self, E, st, obj, args, kw):
+        st.event("known_metadata", obj, kw.get("known_metadata", args[0] if args else NONE))
+        return [Res(st, NONE)]
+
+    methods = {"_pyroGetMetadata": m_get_metadata}
+
+
+@R.contract
+class ProxyFor(_RegBase):
+    name = "Pyro5.server.Daemon.proxyFor#body"
+    real_name = "Pyro5.server.Daemon.proxyFor"
+    raises = {"Pyro5.errors.DaemonError": "x_unreg", "builtins.Exception": "x_other"}
+    raises_any_subclass = ("builtins.Exception",)
+    trusted = ("Daemon.uriFor by its declared interface (body: UriFor); Proxy(uri) and proxy._pyroGetMetadata(known_metadata=...) only store what they are given; "
+               "_get_exposed_members as declared (C02 has its contract)",)
+
+    def setup(self, E, st):
+        d = self.mk(E, st)
+        self.arg = VOpaque(z3.Const("objectOrId", U))
+        st.assume(self.arg.e != U_NONE)
+        return {"self": d, "objectOrId": self.arg, "nat": VBool(z3.Bool("nat"))}
+
+    def designated(self, st):
+        k = uri_object_of(self.arg.e)
+        p, v = _entry(st, self.d, k)
+        return k, p, z3.If(is_weakref(v), D.deref(v), v)
+
+    def ensures(self, E, old, st, a, result):
+        k, p, target = self.designated(old)
+        made = [e for e in st.events if e[0] == "Proxy"]
+        meta = [e for e in st.events if e[0] == "known_metadata"]
+        members = [e for e in st.events if e[0] == "get_exposed_members"]
+        uris = [e for e in st.events if e[0] == "uriFor"]
+        ok = len(made) == 1 and len(meta) == 1 and len(members) == 1 and len(uris) == 1 and isinstance(result, VObj) and result.ref == made[0][2].ref
+        if not ok:
+            return [("exactly one proxy is made, for the uri of the given object / id, and given the metadata of the registered object", z3.BoolVal(False))]
+        uri_obj = made[0][1]
+        return [("exactly one proxy is made, for the uri that uriFor hands out for the given object / id",
+                 z3.BoolVal(isinstance(uri_obj, VObj) and uri_obj.cls == "Pyro5.core.URI" and isinstance(uris[0][1], VOpaque) and z3.eq(uris[0][1].e, self.arg.e))),
+                ("a proxy is handed out only for an id under which an object is registered now", p),
+                ("it is given the metadata of the object that id designates (weak reference unpacked) - not of anything else",
+                 z3.And(members[0][1] == target, z3.BoolVal(isinstance(meta[0][2], VObj) and meta[0][2].ref == members[0][2].ref and meta[0][1].ref == result.ref))),
+                ("the registry is only read", same_entry(old, st, self.d, KSTAR))]
+
+    def x_unreg(self, E, old, st, a, exc):
+        k, p, target = self.designated(old)
+        uris = [e for e in st.events if e[0] == "uriFor" and e[-1:] != ("raised",)]
+        # DaemonError: from uriFor (an object that is not registered), from the lookup (nothing registered under the id), or a dead weak reference
+        return [("the registry is only read", same_entry(old, st, self.d, KSTAR))]
+
+    def x_other(self, E, old, st, a, exc):
+        return [("the registry is only read", same_entry(old, st, self.d, KSTAR))]
+
+
+# --- Daemon.resetMetadataCache (body) -------------------------------------------------------------------------------------------------------------------------------
+
+@R.spec("Pyro5.server._reset_exposed_members", doc="declared: drops the cached member list of the object's class (event; its own contract is in contracts/exposed_members.py)")
+def reset_members_decl(E, st, args, kw):
+    st.event("reset_exposed_members", box(args[0]))
+    return [Res(st, NONE)]
+
+
+@R.contract
+class ResetMetadataCache(_RegBase):
+    name = "Pyro5.server.Daemon.resetMetadataCache"
+    props = ("C02", "C16")
+    raises = {"builtins.Exception": "x_any"}
+    raises_any_subclass = ("builtins.Exception",)
+    trusted = ("Daemon.uriFor and _reset_exposed_members by their declared interfaces",)
+
+    def setup(self, E, st):
+        d = self.mk(E, st)
+        self.arg = VOpaque(z3.Const("objectOrId", U))
+        st.assume(self.arg.e != U_NONE)
+        return {"self": d, "objectOrId": self.arg, "nat": VBool(z3.Bool("nat"))}
+
+    def ensures(self, E, old, st, a, result):
+        k = uri_object_of(self.arg.e)
+        p, v = _entry(old, self.d, k)
+        target = z3.If(is_weakref(v), D.deref(v), v)
+        resets = [e for e in st.events if e[0] == "reset_exposed_members"]
+        return [("the cached member list is dropped exactly when something is registered under the id, and then for the object that id designates (weak reference unpacked)",
+                 z3.And(z3.BoolVal(len(resets) <= 1), z3.BoolVal(bool(resets)) == p, resets[0][1] == target if resets else z3.BoolVal(True))),
+                ("the registry is only read", same_entry(old, st, self.d, KSTAR))]
+
+    def x_any(self, E, old, st, a, exc):
+        return [("the registry is only read", same_entry(old, st, self.d, KSTAR)),
+                ("a failure (unknown object, dead weak reference, malformed id) happens before anything is dropped", z3.BoolVal(not [e for e in st.events if e[0] == "reset_exposed_members"]))]
